@@ -41,11 +41,12 @@ CHECKS = {
 	},
 	'C07': {
 		'category': 'model_checking',
-		'technique': 'bounded symbolic case analysis (CrossHair + z3) of the error-normalisation code with a parser stub raising arbitrary exceptions and handlers raising arbitrary exceptions',
-		'text': 'Normalisation kernels. Whatever exception the (stubbed) Lark parser raises - on disk or in memory - SyntaxParserOfLark lets only Errors.Syntax escape; whatever a Procedure handler raises at any of the first six handler calls of a real tree, '
-			'an Errors.Error escapes, ErrorRender renders it, and the procedure is reusable afterwards.',
+		'technique': 'bounded symbolic case analysis (CrossHair + z3) of the error-normalisation code with a parser stub raising arbitrary exceptions and handlers raising arbitrary exceptions; closed (enumerated) whole-pipeline obligations over two generated program families',
+		'text': 'Normalisation kernels: whatever exception the (stubbed) Lark parser raises - on disk or in memory - SyntaxParserOfLark lets only Errors.Syntax escape; whatever a Procedure handler raises at any of the first six handler calls of a real tree, '
+			'an Errors.Error escapes, ErrorRender renders it, and the procedure is reusable afterwards. Whole pipeline (real Lark, every preprocessor, Py2Cpp, ErrorRender), enumerated: 16 ill-typed program templates x 24 type annotations x 37 expressions, and every single-token '
+			'mutation (delete, duplicate, swap, replace by 12 / 31 tokens) of three valid programs: each run succeeds or raises an Errors.Error that renders.',
 		'design_ref': 'DESIGN.md section 2, C07',
-		'note': 'Lark itself, type-resolution errors of ill-typed programs and termination are outside. ' + NOTE_COMMON,
+		'note': 'The two pipeline families are finite enumerations evaluated directly (no solver decides them; under CrossHair the same enumeration costs 2.7x more and decides nothing more). Inputs outside the families, on-disk modules through the whole pipeline and termination are outside. ' + NOTE_COMMON,
 	},
 	'C08': {
 		'category': 'model_checking',
